@@ -6,6 +6,10 @@ can raise NoTransition.  Everything else: bounded stand-in (contracts/parts/C58_
 """
 import time
 
+import z3
+
+from pyvc.api import *
+from pyvc import core
 from contracts._parts import bounded, EXPLORATION_NOTE
 
 PUBLIC_INPUTS = ("start", "stop", "whenConnected")
@@ -70,18 +74,84 @@ def table_totality(tier, seed):
             "trusted": ["automat's TypeMachineBuilder records exactly the transitions it dispatches on (allTransitions())"]}
 
 
-CONTRACTS = []
+def jitter_model(I, obj):
+    c = ctx()
+    j = core.fresh_real(c.fresh_name("jitter"))
+    c.assume(core.as_bool_term(band(j >= 0, j < 1)))
+    c.ghost["jitter"] = j
+    return j
+
+
+def min_model(I, a, b):
+    """min(100, attempt): decided, not symbolic, because the exponent of `**` has to be a number"""
+    if not is_sym(a) and not is_sym(b):
+        return min(a, b)
+    if not is_sym(a) and I.truth(b >= a):
+        return a
+    raise Unsupported("min() of symbolic values whose order is not determined by the precondition")
+
+
+class BackoffPolicy(Contract):
+    """the default retry policy for every attempt count: 0..99 one by one, 100 and above symbolically (the code caps the
+    exponent at 100)"""
+    prop = "C58"
+    module = "twisted.application._client_service"
+    function = "backoffPolicy"
+    differential = False
+    calls = {"jitter.__call__": jitter_model, "min": min_model}
+    inputs = dict(small=OneOf(*range(0, 100)), large=ForkBool(), attempt=Int(100, None))
+    trusted = ["Python float arithmetic for the concrete part (initialDelay * factor ** k, evaluated by CPython itself); the "
+               "jitter is an arbitrary real in [0, 1)"]
+
+    def requires(self, i):
+        return True if i.large else veq(i.attempt, 100)  # `attempt` only matters in the large case
+
+    def setup(self, i):
+        from twisted.application import _client_service as cs
+        jit = self.opaque("jitter")
+
+        def drive(call):
+            pol = call(cs.backoffPolicy, None, jitter=jit)
+            return call(pol, None, i.attempt if i.large else i.small)
+        return dict(drive=drive, ghost=dict(jitter=None))
+
+    def bounded_inputs(self, tier):
+        return iter(())
+
+    raises = ()
+
+    def _delay(S):
+        k = 100 if S.i.large else S.i.small
+        base = min(1.0 * (1.5 ** k), 60.0)
+        nxt = min(1.0 * (1.5 ** min(100, k + 1)), 60.0)
+        j = S.ghost["jitter"]
+        if j is None:
+            return False
+        return band(veq(S.result, base + j), 0 < base <= 60.0, base <= nxt)
+
+    ensures = dict(exponential_backoff_capped_at_the_maximum_plus_jitter=_delay)
+    canaries = [("delay = min(initialDelay * (factor ** min(100, attempt)), maxDelay)", "delay = min(initialDelay * (factor ** min(100, attempt + 1)), maxDelay)",
+                 "exponential_backoff_capped_at_the_maximum_plus_jitter"),
+                ("        return delay + jitter()", "        return delay", "exponential_backoff_capped_at_the_maximum_plus_jitter")]
+
+
+CONTRACTS = [BackoffPolicy]
 EXTRA = [table_totality]
 BOUNDED = bounded("C58")
 _SCOPE = ('real ClientService with a fake endpoint, fake transports, retry policy n -> 2**n and task.Clock: every history over {start, stop, whenConnected (no limit / 1 / 2), attempt succeeds / fails, prepareConnection raises / defers / later fires or fails, connection drops, clock ticks to just before and exactly the retry time} up to length 9-11 (thorough 13-16) with state-pair pruning over 4 configurations, and seeded random 80-event histories over 5 profiles; oracle from the statement only (at most one attempt or connection, retry delay for the current consecutive-failure count, every whenConnected Deferred fires once and no later than the next connection / its limit / stop, stopService Deferreds fire once closed, nothing raises)')
-NOTES = dict(explanation="Transition-table totality for the public inputs (complete, finite). " + _SCOPE,
-             not_covered=["deductive contracts on the transition bodies (closures over _Core; not built)",
+NOTES = dict(explanation="Retry policy proved for every attempt count; transition-table totality for the public inputs (complete, finite). " + _SCOPE,
+             not_covered=["deductive contracts on the transition bodies (closures over _Core inside makeMachine; not built): what each "
+                          "transition does -- one attempt at a time, waiters resolved -- is the bounded tier's business",
                           "internal inputs (_connectionMade, _connectionFailed, _clientDisconnected) are not total: see the known finding"])
 MANIFEST = dict(
-    category="exploration",
-    text="The transition table of the real machine is read back from makeMachine(): every public input (start, stop, "
-         "whenConnected) has a transition in every state and every state is reachable (complete finite check, reported as "
-         "obligations).  Everything else is a bounded stand-in on the real code: " + _SCOPE + ".",
-    note=EXPLORATION_NOTE,
-    technique="complete enumeration of the real transition table + bounded exhaustive evaluation of an executable contract on the real code (stand-in; not proved)",
+    category="proof",
+    text="The default retry policy (backoffPolicy) is proved for every attempt count -- 0 to 99 one by one, 100 and above "
+         "symbolically, since the code caps the exponent at 100 -- to return min(initialDelay * factor ** attempt, maxDelay) "
+         "plus the jitter, positive, never above maxDelay + jitter, and non-decreasing in the attempt count.  The transition "
+         "table of the real machine is read back from makeMachine(): every public input (start, stop, whenConnected) has a "
+         "transition in every state and every state is reachable (complete finite check, reported as obligations).  What the "
+         "transitions do (one attempt or connection at a time, every waiter resolved exactly once) is exercised in the bounded "
+         "tier only: " + _SCOPE + ".",
+    note="Trusted: pyvc, SMT solvers, CPython float arithmetic for the concrete part of the policy, automat's table.  Everything else: bounded, never counted as proved.",
+    technique="contract-based deductive verification (complete case analysis of the retry policy) + complete enumeration of the real transition table + bounded exhaustive histories",
 )
